@@ -368,6 +368,77 @@ end Slug.Generated
 	writeIfChanged(p, content)
 }
 
+// ---------- lock discipline of sourcebundle.Builder ----------
+
+// For every method of Builder that touches one of the shared fields: is the first statement that
+// mentions such a field preceded (in source order, within the method body) by a call b.mu.Lock()?
+func extractLocks(repo, out string) {
+	f, _ := parseFile(filepath.Join(repo, "sourcebundle/builder.go"))
+	p := filepath.Join(out, "Locks.lean")
+	if f == nil {
+		fmt.Println("extract: lock facts not found")
+		return
+	}
+	shared := map[string]bool{"pendingRemote": true, "pendingRegistry": true, "analyzed": true, "remotePackageDirs": true,
+		"remotePackageMeta": true, "resolvedRegistry": true, "packageVersionDeprecations": true, "registryPackageVersions": true}
+	// methods documented to be called with the lock already held
+	heldByCaller := map[string]bool{"findRegistryPackageSource": true, "ensureRemotePackage": true, "writeManifest": true}
+	var facts []string
+	for _, d := range f.Decls {
+		fd, ok := d.(*ast.FuncDecl)
+		if !ok || fd.Recv == nil || fd.Body == nil || len(fd.Recv.List) != 1 {
+			continue
+		}
+		if exprText(fd.Recv.List[0].Type) != "?" {
+			// receiver (*Builder) prints as "?" for StarExpr in exprText; accept both spellings below
+		}
+		recvIsBuilder := false
+		switch t := fd.Recv.List[0].Type.(type) {
+		case *ast.StarExpr:
+			recvIsBuilder = exprText(t.X) == "Builder"
+		case *ast.Ident:
+			recvIsBuilder = t.Name == "Builder"
+		}
+		if !recvIsBuilder {
+			continue
+		}
+		firstAccess, firstLock := token.NoPos, token.NoPos
+		ast.Inspect(fd.Body, func(n ast.Node) bool {
+			switch v := n.(type) {
+			case *ast.SelectorExpr:
+				if id, ok := v.X.(*ast.Ident); ok && id.Name == "b" && shared[v.Sel.Name] {
+					if firstAccess == token.NoPos || v.Pos() < firstAccess {
+						firstAccess = v.Pos()
+					}
+				}
+			case *ast.CallExpr:
+				if exprText(v.Fun) == "b.mu.Lock" {
+					if firstLock == token.NoPos || v.Pos() < firstLock {
+						firstLock = v.Pos()
+					}
+				}
+			}
+			return true
+		})
+		if firstAccess == token.NoPos {
+			continue
+		}
+		okLock := heldByCaller[fd.Name.Name] || (firstLock != token.NoPos && firstLock < firstAccess)
+		facts = append(facts, fmt.Sprintf("(%s, %v)", leanStr(fd.Name.Name), okLock))
+	}
+	sort.Strings(facts)
+	content := fmt.Sprintf(`/-! GENERATED by harness/cmd/extract from /repo/sourcebundle/builder.go — do not edit.
+For every Builder method that touches the shared queues / memo tables: does a `+"`b.mu.Lock()`"+` precede
+the first access in source order (methods documented as "called with b.mu held" count as locked)? -/
+namespace Slug.Generated
+
+def lockFacts : List (String × Bool) := [%s]
+
+end Slug.Generated
+`, strings.Join(facts, ", "))
+	writeIfChanged(p, content)
+}
+
 func writeIfChanged(path, content string) {
 	old, err := os.ReadFile(path)
 	if err == nil && string(old) == content {
@@ -383,6 +454,7 @@ func main() {
 	os.MkdirAll(*out, 0755)
 
 	extractRemote(*repo, *out)
+	extractLocks(*repo, *out)
 	ig := extractIgnore(*repo)
 	if ig.ok {
 		var esc []string
